@@ -176,6 +176,11 @@ theorem inv_runOps (ops : List Op) (st : St) (h : Inv st) (hg : Guarded st ops) 
   | nil => exact h
   | cons op t ih => exact ih (step st op) (inv_step st op h hg.1) hg.2
 
+/-- Every state of every guarded history satisfies `Inv` — this discharges the `Inv st` hypothesis
+    of the per-step theorems below for all reachable states. -/
+theorem C13_reachable_inv (ops : List Op) (hg : Guarded St.init ops) : Inv (runOps St.init ops) :=
+  inv_runOps ops St.init inv_init hg
+
 /-! ### C13 -/
 
 /-- **C13 (single reference), partial.**  For every history of cache changes, events,
